@@ -1,4 +1,5 @@
 import LeptosModel.Proofs.Async
+import LeptosModel.Proofs.AsyncSusp
 /-!
 # C10 — async derived values settle on the latest inputs
 
@@ -193,7 +194,11 @@ theorem step_hist (s : State) (e : Event) :
         exact ⟨h.1, h.2.1, h.2.2.1, fun hh => .inl (h.2.2.2 hh)⟩
     · exact ⟨rfl, rfl, rfl, .inl⟩
   | refetch =>
-    have h := dMarkDirty_hist s
+    have h : SameHist s (refetch s) := by
+      unfold refetch
+      split
+      · exact SameHist.trans (b := { s with rc := s.rc + 1 }) ⟨rfl, rfl, rfl, id⟩ (smMarkDirty_hist _)
+      · exact dMarkDirty_hist s
     exact ⟨h.1, h.2.1, h.2.2.1, fun hh => .inl (h.2.2.2 hh)⟩
   | manualSet v => simp [step, manualSet]
   | complete f =>
@@ -204,6 +209,9 @@ theorem step_hist (s : State) (e : Event) :
     have h := pollNth_hist s j
     exact ⟨h.1, h.2.1, h.2.2.1, fun hh => .inl (h.2.2.2 hh)⟩
   | get => exact ⟨rfl, rfl, rfl, .inl⟩
+  | bread =>
+    simp only [step, bread]
+    (repeat' split) <;> exact ⟨rfl, rfl, rfl, .inl⟩
 
 theorem foldl_hist (s : State) (es : List Event) :
     (es.foldl step s).eff = s.eff ∧
@@ -279,7 +287,7 @@ theorem settled_waiting {s : State} (h : Inv s) (hs : settled s = true) :
     split
     · rename_i hv
       cases hsd : s.smDirty
-      · exact s1 hv hsd
+      · exact (s1 hv hsd).1
       · have := s2 hsd; simp [hch] at this
     · rfl
 
@@ -465,6 +473,30 @@ theorem eLoop_value (n : Nat) (s : State) : (eLoop n s).value = s.value := by
     · rw [ih, eIter_value]
     · exact eIter_value s
 
+theorem dMarkDirty_value (s : State) : (dMarkDirty s).value = s.value := by
+  simp only [dMarkDirty, dNotify]; (repeat' split) <;> rfl
+theorem smMarkDirty_value (s : State) : (smMarkDirty s).value = s.value := by
+  simp only [smMarkDirty, dMarkCheck, dNotify]; (repeat' split) <;> rfl
+theorem mMarkDirty_value (s : State) : (mMarkDirty s).value = s.value := by
+  simp only [mMarkDirty, eMarkCheck, eNotify]; (repeat' split) <;> rfl
+
+theorem setSrc_value (s : State) (i : Nat) (v : Val) : (setSrc s i v).value = s.value := by
+  unfold setSrc
+  split
+  · have fin : ∀ u : State, u.value = s.value → (if u.mRan = true then mMarkDirty u else u).value = s.value := by
+      intro u hu
+      split
+      · rw [mMarkDirty_value]; exact hu
+      · exact hu
+    by_cases hv : s.viaMemo = true
+    · dsimp only
+      rw [if_pos hv]
+      exact fin _ (smMarkDirty_value _)
+    · dsimp only
+      rw [if_neg hv]
+      exact fin _ (dMarkDirty_value _)
+  · rfl
+
 /-- A synchronous read after ANY event, in ANY state, returns what it returned before the event —
 unless the event is a manual write (then it is that value) or a poll that hands the derived's task the
 result of the fetch the harness completed (then it is the fetcher's result for the inputs that fetch
@@ -477,13 +509,13 @@ theorem C10_sync_read_is_previous_or_none (s : State) (e : Event) :
     (∃ j, e = .poll j ∧ s.curStatus = .ready ∧ (step s e).value = some (fetchFn s.curInputs)) := by
   cases e with
   | set i v =>
-    refine .inl ?_
-    simp only [step, setSrc, smMarkDirty, dMarkCheck, dMarkDirty, dNotify, mMarkDirty, eMarkCheck, eNotify]
-    (repeat' split) <;> rfl
+    exact .inl (setSrc_value s i v)
   | refetch =>
     refine .inl ?_
-    simp only [step, dMarkDirty, dNotify]
-    (repeat' split) <;> rfl
+    simp only [step, refetch]
+    split
+    · exact smMarkDirty_value _
+    · exact dMarkDirty_value _
   | manualSet v => exact .inr (.inl ⟨v, rfl, by simp [step, manualSet]⟩)
   | complete f =>
     refine .inl ?_
@@ -502,6 +534,10 @@ theorem C10_sync_read_is_previous_or_none (s : State) (e : Event) :
       · exact .inl rfl
     · exact .inl rfl
   | get => exact .inl rfl
+  | bread =>
+    refine .inl ?_
+    simp only [step, bread]
+    (repeat' split) <;> rfl
 
 /-! ## dependents -/
 
@@ -538,6 +574,54 @@ theorem C10_dependents_notified_each_transition (c : Cfg) (es : List Event)
     have := h.ew.w2 hw
     simp_all
   · exact hs
+
+/-! ## the `<Suspense/>` boundary -/
+
+/-- A boundary that has read the value is waiting for the load in flight: whenever a fetch is in flight that
+the boundary has read from (it read after the loop took the registrations for the previous fetch: before
+this fetch started, or while it is in flight — with no value yet, or with the previous value during a
+reload) and no manual write has turned the loading indication off, the boundary's task list is non-empty. -/
+theorem C10_suspense_pending_while_covered (c : Cfg) (es : List Event)
+    (h : suspCovered (run c es) = true) : 0 < (run c es).pending := by
+  have hs := SInv.run c es
+  simp only [suspCovered, Bool.and_eq_true, decide_eq_true_eq, Bool.not_eq_true', Bool.or_eq_true] at h
+  obtain ⟨⟨hpc, hm⟩, hcov⟩ := h
+  rw [hs.p1]
+  rcases hcov with hcov | hcov
+  · have := (hs.p3 hpc).mp hcov
+    omega
+  · have := hs.p6 hpc hm hcov
+    omega
+
+/-- ... and it is told about every completion: whenever the executor is idle and no fetch is in flight, the
+boundary's task list is empty (every reader task has resolved, the loop holds no task id). -/
+theorem C10_suspense_released_when_idle (c : Cfg) (es : List Event)
+    (hidle : readyList (run c es) = []) (hpc : (run c es).pc ≠ .fetching) : (run c es).pending = 0 := by
+  have h := Inv.run c es
+  have hs := SInv.run c es
+  obtain ⟨hd, _, hw⟩ := readyList_nil hidle
+  have hwait : (run c es).pc = .waiting := by
+    cases hp : (run c es).pc
+    · have := (h.dr.r3 hp).1; simp [hd] at this
+    · rfl
+    · exact absurd hp hpc
+  have hl := (h.dr.r5 hwait).1
+  have hn : nLive (run c es).aws = 0 := by
+    unfold nLive
+    rw [List.length_eq_zero_iff, List.filter_eq_nil_iff]
+    intro a ha
+    obtain ⟨h1, h2, _⟩ := h.dc.aw a ha
+    cases hdn : a.done
+    · rcases h1 hdn with hw' | hp'
+      · have := hw a ha hw'; simp [hdn] at this
+      · have := h2 hp'; simp [hl] at this
+    · simp
+  rw [hs.p1, hn, hs.p2 hpc]
+
+theorem C10_suspense_released_when_settled (c : Cfg) (es : List Event) (hs : settled (run c es) = true) :
+    (run c es).pending = 0 := by
+  obtain ⟨hpc, _, _, hrl, _⟩ := settled_waiting (Inv.run c es) hs
+  exact C10_suspense_released_when_idle c es hrl (by simp [hpc])
 
 /-! ## the version test -/
 
@@ -696,3 +780,55 @@ example :
     settled (run {} [.set 0 5, .poll 0, .complete 1, .poll 0]) = true ∧
     (run {} [.set 0 5, .poll 0, .complete 1, .poll 0]).value = some (fetchFn [5]) := by decide
 
+/-- sources read through a memo: a write of the SAME value makes the memo recompute unchanged (no
+refetch, the value is still the fetcher's result for the latest sources); a write of a new value during
+the fetch refetches -/
+example :
+    (run c10MemoCfg [.poll 0, .complete 0, .poll 0, .set 0 1, .poll 0]).nf = 1 ∧
+    settled (run c10MemoCfg [.poll 0, .complete 0, .poll 0, .set 0 1, .poll 0]) = true ∧
+    (run c10MemoCfg [.poll 0, .complete 0, .poll 0, .set 0 1, .poll 0]).value = some (fetchFn [1]) ∧
+    (run c10MemoCfg [.poll 0, .set 0 4, .complete 0, .poll 0]).nf = 2 ∧
+    (run c10MemoCfg [.poll 0, .set 0 4, .complete 0, .poll 0]).curInputs = [4] ∧
+    settled (run c10MemoCfg [.poll 0, .set 0 4, .complete 0, .poll 0, .complete 1, .poll 0]) = true ∧
+    (run c10MemoCfg [.poll 0, .set 0 4, .complete 0, .poll 0, .complete 1, .poll 0]).value =
+      some (fetchFn [4]) := by decide
+
+/-- a `Resource` (`res`): `refetch()` and then a source write — the seeded "memo drops its subscription"
+change leaves this on `fetch(0)`; a source write and `refetch()` in one turn give ONE refetch on the new
+source -/
+example :
+    settled (run { srcs := [0], res := true }
+      [.poll 0, .complete 0, .poll 0, .refetch, .poll 0, .complete 1, .poll 0, .set 0 2, .poll 0,
+       .complete 2, .poll 0]) = true ∧
+    (run { srcs := [0], res := true }
+      [.poll 0, .complete 0, .poll 0, .refetch, .poll 0, .complete 1, .poll 0, .set 0 2, .poll 0,
+       .complete 2, .poll 0]).value = some (fetchFn [2]) ∧
+    (run { srcs := [0], res := true } [.poll 0, .complete 0, .poll 0, .set 0 2, .refetch, .poll 0]).nf = 2 ∧
+    (run { srcs := [0], res := true } [.poll 0, .complete 0, .poll 0, .set 0 2, .refetch, .poll 0]).curInputs
+      = [2] := by decide
+
+/-- the boundary reads at the three phases: no value + loading (one handle + one task id held by the loop),
+value + idle (the reader resolves at once, the registration covers the next reload), value + reloading
+(the seeded "handle only when there is no value" change leaves this one at 0) -/
+example :
+    (run {} [.bread, .poll 0, .poll 0]).pending = 2 ∧
+    suspCovered (run {} [.bread, .poll 0, .poll 0]) = true ∧
+    (run {} [.bread, .poll 0, .poll 0, .complete 0, .poll 0, .poll 0]).pending = 0 ∧
+    (run {} [.poll 0, .complete 0, .poll 0, .bread, .poll 0]).pending = 0 ∧
+    (run {} [.poll 0, .complete 0, .poll 0, .bread, .poll 0, .set 0 1, .poll 0]).pending = 1 ∧
+    suspCovered (run {} [.poll 0, .complete 0, .poll 0, .bread, .poll 0, .set 0 1, .poll 0]) = true ∧
+    (run {} [.poll 0, .complete 0, .poll 0, .set 0 1, .poll 0, .bread, .poll 0]).pending = 1 ∧
+    (run {} [.poll 0, .complete 0, .poll 0, .set 0 1, .poll 0, .bread, .poll 0]).value = some (fetchFn [0]) ∧
+    readyList (run {} [.poll 0, .complete 0, .poll 0, .set 0 1, .poll 0, .bread, .poll 0]) = [] ∧
+    suspCovered (run {} [.poll 0, .complete 0, .poll 0, .set 0 1, .poll 0, .bread, .poll 0]) = true := by
+  decide
+
+/-- a `OnceResource`: the boundary waits only while there is no value -/
+example :
+    (run { srcs := [3], once := true } [.bread, .poll 0, .poll 0]).pending = 1 ∧
+    (run { srcs := [3], once := true } [.bread, .poll 0, .poll 0, .complete 0, .poll 0, .poll 0]).pending = 0 ∧
+    (run { srcs := [3], once := true } [.poll 0, .complete 0, .poll 0, .bread]).pending = 0 ∧
+    (run { srcs := [3], once := true } [.poll 0, .complete 0, .poll 0, .bread]).value = some (fetchFn [3]) := by
+  decide
+
+end Leptos.Async
